@@ -694,3 +694,38 @@ func (r *rwRT) ruleTestMode() {
 		}
 	}
 }
+
+// DET.PARTIALTYPES (C15, C16): the optimiser decides from go/types information (is the closure's type the
+// callee's type, is the callee a declared function). The second stage loads the intermediate tree; when it
+// asks the loader to suppress type errors, that information is silently incomplete exactly when an imported
+// package has no derived files on disk yet (its co-tagged sources are invisible without the tag): a closure
+// such as `func() bool { return ɪʇ.MoveNext() }` is then kept, and reduced on the next run, once the
+// dependency has been generated. The bytes written for one package depend on what earlier runs left on disk.
+func (r *rwRT) rulePartialTypes() {
+	c := r.c
+	for _, entry := range []struct {
+		name string
+		args []AV
+	}{
+		// (Compile works on untagged sources: the packages its intermediate tree imports are complete without any derived file)
+		{"GoGen", []AV{mkString("/p/pkg"), SliceV{}}},
+	} {
+		fn := r.w.Func(pathRw, entry.name)
+		pos := r.w.FnPos(fn)
+		construct := "optimise stage of " + entry.name + " reads complete type information"
+		g, err := r.runPipeline(entry.name, entry.args, false)
+		if err != nil {
+			c.und("DET.PARTIALTYPES", construct, pos, err.Error())
+			continue
+		}
+		suppressed := ""
+		for _, e := range g.o.St.Events {
+			if e.Kind == "call" && e.Fn != nil && strings.Contains(e.Fn.Name(), "SuppressErrors") && strings.Contains(fnPkgPath(e.Fn), "loader") {
+				suppressed = r.w.Pos(e.Pos)
+			}
+		}
+		c.check(suppressed == "", "DET.PARTIALTYPES", construct, pos,
+			"no stage is loaded with type errors suppressed",
+			"the intermediate tree is loaded with type errors suppressed ("+suppressed+"): the optimiser's type-based decisions (eta reduction) silently change with the presence of the derived files of imported packages — generating a package before and after its dependency gives different bytes")
+	}
+}
